@@ -560,7 +560,7 @@ var pureLib = map[string]bool{
 	"fmt.Println": true, "fmt.Printf": true, "fmt.Print": true,
 	"errors.New": true, "errors.Is": true, "errors.As": true, "errors.Unwrap": true,
 	"time.Parse": true, "(time.Time).Unix": true, "time.Now": true,
-	"reflect.TypeOf": true,
+	"reflect.TypeOf":            true,
 	"(*strings.Builder).String": true, "(*strings.Builder).Len": true,
 	"math.Max": true, "math.Min": true,
 	"sort.SearchInts": true,
